@@ -401,6 +401,139 @@ theorem source_flag_vertices_independent_of_history (P : FlagVertsIn) (d : Dict)
   rw [flagEdgeRotVerts_bridge, flagEdgeRotVerts_bridge, flagSingulsVerts_bridge, flagSingulsVerts_bridge]
   cases old <;> simp [FFH.flagInto, C18H.vertsRotCleared, C18H.vertsSingulsCleared]
 
+/-! ## round 6: operator assembly, connection, export — whole bodies translated -/
+
+/-- `operators.laplacian` with a connection: coefficient `(a,b)` of the matrix scipy builds from the translated triplets (duplicates summed) is the
+coefficient of the round-1 model assembled from `FF.entryVert` (three half-edges per face, weight of the OPPOSITE corner, both diagonal entries, the
+two off-diagonal entries with the phases `order (t_ij − t_ji − π)`, `order (t_ji − t_ij − π)`) -/
+theorem bridge_laplacian_vertices (U : Rat → Cpx) (order : Nat) (cotan : Bool) (faces : List (Nat × Nat × Nat × Nat)) (cot tr : Nat → Nat → Rat) (a b : Nat) :
+    tripCoeff (C18S.laplacianTriplets U order cotan true faces cot tr) a b = coeff (lapEntriesM U order cotan faces cot tr) a b := by
+  rw [laplacianTriplets_bridge]; exact tripCoeff_entries _ a b
+
+/-- hence the translated vertex operator is HERMITIAN, for every mesh, order, weights and transports — given only that `U` is `x ↦ exp(2πi x)`
+(conjugate at the opposite phase, period one turn) -/
+theorem source_laplacian_vertices_hermitian (U : Rat → Cpx) (hU : UnitContract U) (order : Nat) (cotan : Bool) (faces : List (Nat × Nat × Nat × Nat))
+    (cot tr : Nat → Nat → Rat) (a b : Nat) :
+    tripCoeff (C18S.laplacianTriplets U order cotan true faces cot tr) a b
+      = cconj (tripCoeff (C18S.laplacianTriplets U order cotan true faces cot tr) b a) := by
+  rw [bridge_laplacian_vertices, bridge_laplacian_vertices]
+  apply Mouette.Props.C18.connection_laplacian_hermitian
+  intro e he
+  unfold lapEntriesM at he
+  obtain ⟨it, _, hit⟩ := List.mem_flatMap.mp he
+  exact lapFaceEntries_herm U hU order cotan cot tr it e hit
+
+/-- `operators.laplacian_triangles` with a connection: the rows of `Nabla` the translated loop writes (interior edges only, `−1` at `T1`,
+`exp(i·order·transport(T1,T2))` at `T2`) and the returned product `Nabla* D Nabla` give the round-1 model assembled from `FF.entryFace` -/
+theorem bridge_laplacian_triangles (U : Rat → Cpx) (order : Nat) (cotan : Bool) (dw : Nat → Rat) (edges : List (Nat × Option Nat × Option Nat))
+    (tr : Nat → Nat → Rat) (a b : Nat) :
+    gramCoeff (C18S.nablaRowWeight cotan dw) (C18S.nablaRows U order true edges tr) a b
+      = coeff (triEntriesM U order (C18S.nablaRowWeight cotan dw) edges tr) a b := by
+  rw [nablaRows_bridge]; exact gramCoeff_rows U order _ tr edges a b
+
+/-- … which is Hermitian for ANY transports and any `U` (no contract needed: the conjugate comes from `Nabla.conj().transpose()`) -/
+theorem source_laplacian_triangles_hermitian (U : Rat → Cpx) (order : Nat) (cotan : Bool) (dw : Nat → Rat) (edges : List (Nat × Option Nat × Option Nat))
+    (tr : Nat → Nat → Rat) (a b : Nat) :
+    gramCoeff (C18S.nablaRowWeight cotan dw) (C18S.nablaRows U order true edges tr) a b
+      = cconj (gramCoeff (C18S.nablaRowWeight cotan dw) (C18S.nablaRows U order true edges tr) b a) := by
+  rw [bridge_laplacian_triangles, bridge_laplacian_triangles]
+  apply Mouette.Props.C18.connection_laplacian_hermitian
+  intro e he
+  unfold triEntriesM at he
+  obtain ⟨it, _, hit⟩ := List.mem_filterMap.mp he
+  rcases it with ⟨i, t1, t2⟩
+  cases t1 with
+  | none => simp at hit
+  | some T1 =>
+    cases t2 with
+    | none => simp at hit
+    | some T2 =>
+      simp only [] at hit
+      injection hit with h
+      rw [← h]
+      exact entryFace_herm _ _ _ _
+
+/-- `SurfaceConnectionFaces._initialize`, basis loop: as soon as a face has a feature side, the triple handed to `face_basis` STARTS on a feature
+side — the X axis of its basis is along a feature edge (which is what makes the constraint `(c/|c|)**4` of `_initialize_variables` real) -/
+theorem source_connection_faces_basis_on_feature (isFeat : Nat → Nat → Bool) (it : Nat × Nat × Nat × Nat)
+    (h : isFeat it.2.1 it.2.2.1 = true ∨ isFeat it.2.2.1 it.2.2.2 = true ∨ isFeat it.2.2.2 it.2.1 = true) :
+    isFeat (C18S.connFacesTriple isFeat it).1 (C18S.connFacesTriple isFeat it).2.1 = true := connFacesTriple_feature isFeat it h
+
+/-- … and a face without feature side keeps its own triple -/
+theorem source_connection_faces_basis_plain (isFeat : Nat → Nat → Bool) (it : Nat × Nat × Nat × Nat)
+    (h1 : isFeat it.2.1 it.2.2.1 = false) (h2 : isFeat it.2.2.1 it.2.2.2 = false) (h3 : isFeat it.2.2.2 it.2.1 = false) :
+    C18S.connFacesTriple isFeat it = (it.2.1, it.2.2.1, it.2.2.2) := by
+  unfold C18S.connFacesTriple; simp [h1, h2, h3]
+
+/-- transport loop: the dict is the directed-rotation dict of the edge list `(T1, T2, angle1 − angle2)` -/
+theorem bridge_connection_faces_transport (interior : List (Nat × Nat × Nat)) (ang : Nat → Nat → Rat) :
+    C18S.connFacesTransport interior ang
+      = dictOfM (interior.map (fun it => ({ a := it.2.1, b := it.2.2, r := ang it.1 it.2.1 - ang it.1 it.2.2 } : FFV.RE))) :=
+  connFacesTransport_bridge interior ang
+
+/-- hence on a well-formed dual edge list (no face adjacent to itself, no pair of faces sharing two listed edges) the translated transports are
+ANTISYMMETRIC: `transport(T2,T1) = −transport(T1,T2)` — the hypothesis under which the face operator's phases are conjugate -/
+theorem source_connection_faces_transport_antisymmetric (interior : List (Nat × Nat × Nat)) (ang : Nat → Nat → Rat)
+    (hu : FFV.uniqueEdges (interior.map (fun it => ({ a := it.2.1, b := it.2.2, r := ang it.1 it.2.1 - ang it.1 it.2.2 } : FFV.RE))) = true)
+    (hne : ∀ it ∈ interior, it.2.1 ≠ it.2.2) (u v : Nat) :
+    C18S.connFacesTransport interior ang v u = -(C18S.connFacesTransport interior ang u v) := by
+  rw [connFacesTransport_bridge, dictOfM_eq_rotD _ hu, dictOfM_eq_rotD _ hu]
+  apply rotD_antisymm
+  intro e he
+  obtain ⟨it, hit, rfl⟩ := List.mem_map.mp he
+  exact hne it hit
+
+/-- `SurfaceConnectionVertices._initialize`, ring loop at an ordinary vertex: the first neighbour of the ring (the one the basis is built on) gets
+the transport `ang·2π/total` of the running sum it is entered with — 0 in `connVertsTransport` — and the second one the rescaled first corner angle -/
+theorem source_connection_vertices_ring (total : Nat → Rat) (ca : Nat → Nat → Option Rat) (u v0 v1 : Nat) (rest : List Nat) (d : Dict)
+    (h0 : v0 ∉ v1 :: rest) (h1 : v1 ∉ rest) :
+    C18S.connVertsRingInterior total ca u (v0 :: v1 :: rest) d 0 u v0 = 0 ∧
+    C18S.connVertsRingInterior total ca u (v0 :: v1 :: rest) d 0 u v1 = (ca u v0).getD 0 / total u := by
+  constructor
+  · rw [ringInterior_first total ca u v0 (v1 :: rest) d 0 h0]; simp
+  · rw [ringInterior_second total ca u v0 v1 rest d 0 h1]
+    have : (((0 : Rat) + (ca u v0).getD 0) * 2) * (1 / 2) = (ca u v0).getD 0 := by ring
+    rw [this]
+
+/-- `export_as_mesh` (both fields): every edge of the exported poly-line joins two of the `(order+1)·n` vertices appended (centre + `order` branch tips
+per element; centre `n·i`, tips `n·i + k`, `1 ≤ k ≤ order`) -/
+theorem source_export_faces_edges_in_range (order n : Nat) :
+    ∀ e ∈ C18S.exportFacesEdges order n, e.1 < C18S.exportFacesVerticesPer order * n ∧ e.2 < C18S.exportFacesVerticesPer order * n := by
+  unfold C18S.exportFacesEdges C18S.exportFacesVerticesPer
+  apply exportEdges_mem order n _ (1 + order)
+  intro i e he
+  simp only [List.mem_map, List.mem_range'_1] at he
+  obtain ⟨k, hk, rfl⟩ := he
+  simp only []
+  have hk2 : k < order + 1 := by omega
+  have hexp : (1 + order) * (i + 1) = (order + 1) * i + (order + 1) := by ring
+  constructor
+  · rw [hexp]; exact Nat.lt_add_of_pos_right (by omega)
+  · rw [hexp]; exact Nat.add_lt_add_left hk2 _
+
+theorem source_export_vertices_edges_in_range (order n : Nat) (rv : Bool) :
+    ∀ e ∈ C18S.exportVertsEdges order n rv, e.1 < C18S.exportVertsVerticesPer order rv * n ∧ e.2 < C18S.exportVertsVerticesPer order rv * n := by
+  unfold C18S.exportVertsEdges C18S.exportVertsVerticesPer
+  cases rv
+  · simp only [Bool.false_eq_true, if_false]
+    apply exportEdges_mem order n _ (1 + order)
+    intro i e he
+    simp only [List.mem_map, List.mem_range'_1] at he
+    obtain ⟨k, hk, rfl⟩ := he
+    simp only []
+    have hk2 : k < order + 1 := by omega
+    have hexp : (1 + order) * (i + 1) = (order + 1) * i + (order + 1) := by ring
+    constructor
+    · rw [hexp]; exact Nat.lt_add_of_pos_right (by omega)
+    · rw [hexp]; exact Nat.add_lt_add_left hk2 _
+  · simp only [if_true]
+    apply exportEdges_mem order n _ 2
+    intro i e he
+    simp only [List.mem_singleton] at he
+    subst he
+    simp only []
+    constructor <;> omega
+
 /-! ## non-vacuity -/
 section examples
 /-- a toy `Num`: exact moduli on the few values used below; the "solver" of a 1×1 unit system -/
@@ -436,6 +569,12 @@ example : (C18S.flagEdgeRotVerts toyFlagV none).2 = [(0, 0), (1, -1 / 12), (2, -
 example : C18S.flagSingulsVerts toyFlagV (C18S.flagEdgeRotVerts toyFlagV none).1 (some [(7, 1)]) = [(0, 1)] := by decide +kernel
 example : C18S.initVariablesVerts toyNum 2 false (fun _ _ => cone) (fun a b => if a < b then cone else ((0 : Rat), (1 : Rat)))
     [{ id := 0, a := 0, b := 1 }] [0, 1] (List.replicate 3 czero) = [cone, cneg cone, czero] := by decide +kernel
+example : C18S.connFacesTriple (fun u v => u == 7 && v == 5) (0, 5, 6, 7) = (7, 5, 6) := by decide +kernel
+example : C18S.connFacesTransport [(0, 3, 4)] (fun _ T => if T = 3 then 1 / 8 else 1 / 3) 4 3 = 5 / 24 := by decide +kernel
+example : C18S.exportFacesEdges 2 2 = [(0, 1), (0, 2), (3, 4), (3, 5)] := by decide +kernel
+example : (C18S.laplacianTriplets (fun _ => cone) 4 false true [(0, 0, 1, 2)] (fun _ _ => 0) (fun _ _ => 0)).length = 12 := by decide +kernel
+example : (C18S.nablaRows (fun _ => cone) 4 true [(0, some 0, some 1), (1, some 0, none)] (fun _ _ => 0)).length = 1 := by decide +kernel
+example : C18S.connVertsTransport 1 (fun _ => [2, 1]) (fun _ => false) (fun _ => 0) 4 (fun _ => 1) (fun _ v => if v = 1 then some (1 / 4) else some (3 / 4)) 0 2 = 1 / 4 := by decide +kernel
 end examples
 
 end Mouette.Props.C18Source
